@@ -14,12 +14,7 @@ def hexs(b):
     return "".join("%02x" % x for x in b)
 
 
-def lobj(typ, osz, total, fill=0x11):
-    import struct
-    b = bytearray([fill] * max(total, 16))
-    b[0:4] = b"LOBJ"
-    b[4:16] = struct.pack("<HHII", 16, 1, osz, typ)
-    return ["raw", hexs(b[:total])]
+lobj = SC.lobj
 
 
 def spec_grid(tier):
@@ -28,6 +23,8 @@ def spec_grid(tier):
     g = [
         # known type whose declared size is below its own layout: read 48, seek back
         dict(name="h_short", params=dict(B=64, Q=2, NREADS=-1), items=[lobj(1, 20, 48), can(2)], conts=[96]),
+        # a version-dependent type (LIN_MESSAGE2) declared much shorter than this library's layout of it
+        dict(name="h_lin2short", params=dict(B=256, Q=2, NREADS=-1), items=[can(1), lobj(57, 20, 48), can(2), can(3), can(4), can(5)], conts=[288]),
         # known type declared larger than what follows: runs into the end of the stream
         dict(name="h_long", params=dict(B=64, Q=2, NREADS=-1), items=[can(1), lobj(1, 1000, 48)], conts=[48, 48]),
         # unknown type declared far beyond the file
@@ -96,7 +93,7 @@ def run(rep, tier, seed):
                        "a sanitizer report, an escaping exception, a dead-/live-lock or an endless object stream is a "
                        "violation")
     SC.model_and_replay(rep, "r", spec_grid(tier), "c10_spec_" + tier,
-                        ["DeadlockFree", "NullIsLast", "QueueBounded", "Accounted"], liveness=True, key="spec")
+                        ["DeadlockFree", "FiniteDelivery", "NullIsLast", "QueueBounded", "Accounted"], liveness=True, key="spec")
     # the resynchronisation scan at the end of a stream must end (exception / failed stream), never spin
     from checks import c09
     c09.resync_part(rep, tier)
